@@ -65,7 +65,10 @@ func (d *mapTypeFieldTextDecoder) Decode(req *protocol.Request, params param.Par
 				defaultValue = tagInfo.Default
 				found := checkRequireJSON(req, tagInfo)
 				if found {
-					err = nil
+					// a tag that is not itself required settles an earlier 'required' only if the body has the value
+					if tagInfo.Required || keyExist(req, tagInfo) {
+						err = nil
+					}
 				} else {
 					err = fmt.Errorf("'%s' field is a 'required' parameter, but the request does not have this parameter", tagInfo.Value)
 				}
